@@ -10,7 +10,7 @@ use serde_json::{json, Value};
 pub fn def() -> PropDef {
     PropDef {
         id: "C12",
-        rule: "set_flags: all 65536 header words x all 65536 low argument halves (upper half 0) plus all words x {each single upper bit, 0xffff, 16 seed-chosen upper halves} x 64 low patterns; set_opcode/set_rcode: all words x all 256 arguments; set_response (method and associated function): all words x {true,false}; set_tid: all words x 8 ids; on two base packets (with and without OPT); every ordered pair of 45 setter instances x 40 header words on a freshly parsed packet; distinct classes = (setter, whether a bit outside the field was at stake, argument class)",
+        rule: "set_flags: all 65536 header words x all 65536 low argument halves (upper half 0) plus all words x {each single upper bit, 0xffff, 16 seed-chosen upper halves} x 64 low patterns; set_opcode/set_rcode: all words x all 256 arguments; set_response (method and associated function): all words x {true,false}; set_tid: all words x 8 ids; on three base packets (with OPT, without, and the 12-byte header-only packet of ParsedPacket::empty()); every ordered pair of 45 setter instances x 40 header words on a freshly parsed packet; distinct classes = (setter, whether a bit outside the field was at stake, argument class)",
         run,
         replay,
         bounds: |_| json!({"header_words": 65536, "set_flags_low_halves": 65536, "upper_halves": 34, "opcode_rcode_args": 256, "tids": 12}),
@@ -29,7 +29,19 @@ fn bases() -> Vec<Vec<u8>> {
     m.ar.push(opt_rec(1232, 1, 0, 0xa55a, &[(10, vec![1, 2])]));
     let mut m2 = base_msg(&ba, refmodel::wire::T_A, true);
     m2.an.push(a_rec(&ba, 1, [1, 2, 3, 4]));
-    vec![encode(&m, Strategy::Max), encode(&m2, Strategy::Plain)]
+    // and a header-only packet, as `ParsedPacket::empty()` produces it (12 bytes, no question yet)
+    vec![encode(&m, Strategy::Max), encode(&m2, Strategy::Plain), vec![0x12, 0x34, 0x01, 0, 0, 0, 0, 0, 0, 0, 0, 0]]
+}
+
+/// the object for a base packet: parsed, or for the header-only base a synthesised empty packet given that header
+fn object_for(base: &[u8]) -> Result<ParsedPacket, String> {
+    if base.len() == 12 {
+        let mut e = ParsedPacket::empty();
+        e.packet_mut().copy_from_slice(base);
+        Ok(e)
+    } else {
+        crate::subj::parse(base)
+    }
 }
 
 #[derive(Clone, Copy, Debug)]
@@ -56,6 +68,11 @@ fn apply_d(pp: &mut ParsedPacket, base: &[u8], w: u16, s: Setter, detail: bool) 
         p[1] = base[1];
         p[2] = (w >> 8) as u8;
         p[3] = w as u8;
+        // every call starts from the base packet: bytes an earlier (faulty) call wrote outside the header word
+        // are put back, so that they are charged to that call only
+        if p.len() == base.len() && p[4..] != base[4..] {
+            p[4..].copy_from_slice(&base[4..]);
+        }
     }
     let ext = pp.ext_flags.unwrap_or(0) as u32;
     let (exp_w, exp_tid): (u16, u16) = match s {
@@ -137,7 +154,7 @@ fn run(ctx: &mut Ctx, rep: &mut Report) {
         v
     };
     for (bi, base) in bases().iter().enumerate() {
-        let mut pp = crate::subj::parse(base).expect("base packet");
+        let mut pp = object_for(base).expect("base packet");
         let mut local: std::collections::HashMap<(&'static str, &'static str), u64> = Default::default();
         // counts every failure; builds description and replay case for the first three of each kind only
         let mut hot = |rep: &mut Report, pp: &mut ParsedPacket, w: u16, s: Setter| {
@@ -224,7 +241,7 @@ fn run(ctx: &mut Ctx, rep: &mut Report) {
                     }
                     for s2 in &menu {
                         let r = (|| -> Result<(), (String, String)> {
-                            let mut pp = crate::subj::parse(base).map_err(|e| ("setup".to_string(), e))?;
+                            let mut pp = object_for(base).map_err(|e| ("setup".to_string(), e))?;
                             apply(&mut pp, base, w, *s1)?;
                             let p = pp.packet().to_vec();
                             let w1 = ((p[2] as u16) << 8) | p[3] as u16;
@@ -262,7 +279,7 @@ fn replay(case: &Value) -> Result<String, String> {
     let bi = case["base"].as_u64().unwrap_or(0) as usize;
     let w = case["word"].as_u64().unwrap_or(0) as u16;
     let base = bases()[bi].clone();
-    let mut pp = crate::subj::parse(&base)?;
+    let mut pp = object_for(&base)?;
     let setters: Vec<Setter> = match case["setter"].as_str() {
         Some("all") | None => return Ok("journal entry (no single setter)".into()),
         Some(s) => vec![parse_setter(s).ok_or("bad setter")?],
